@@ -1143,9 +1143,26 @@ def c10_families(tier, seed, ids=None):
             else:
                 items = [assign("mkcl", fn(["a"], fn([], N("a")))), assign("run", fn([], block(take + more + [probe3]))), call("run"), call("read")]
             rd.append(mk(ids, items, {"ops": ["read", "read"], "reads": [nlines, width, where]}, stdin=lines))
+    # building an array literal does not change values that already exist: literals whose elements are computed with several operators,
+    # as the right operand of a chain of concatenations (whose partial result exists while the elements are computed)
+    al = []
+    pre = [assign("head", lst([I(1), I(2)])), assign("mid", lst([I(3)])), assign("x", I(3)), assign("y", I(4)), assign("z", I(5)), assign("s", St("ab"))]
+    elems_ = {"sum3": bin_("+", bin_("+", N("x"), N("y")), N("z")), "mul-add": bin_("+", bin_("*", N("x"), I(10)), N("y")), "one-op": bin_("+", N("x"), I(1)), "plain": N("x"),
+              "nested-literal": lst([bin_("-", bin_("*", N("y"), N("z")), N("x"))]), "length": bin_("+", bin_("*", un("#", N("head")), I(2)), I(1))}
+    for en, e in elems_.items():
+        lit = lst([e])
+        lit2 = lst([N("x"), e, e])
+        probe = lst([N("head"), N("mid"), N("x"), N("y"), N("z")])
+        items = pre + [bin_("+", bin_("+", N("head"), N("mid")), lit), assign("l", lit), bin_("+", bin_("+", N("head"), N("mid")), N("l")),
+                       bin_("==", bin_("+", bin_("+", N("head"), N("mid")), lit), bin_("+", bin_("+", N("head"), N("mid")), N("l"))), probe,
+                       bin_("+", bin_("+", bin_("+", N("head"), N("mid")), lit2), lit), bin_("+", N("head"), bin_("+", N("mid"), lit)), bin_("+", bin_("+", lit, N("head")), lit2), probe,
+                       assign("run", fn(["n"], block([assign("acc", lst([])), fr(["i"], [call("fromto", I(0), N("n"))], assign("acc", bin_("+", bin_("+", N("acc"), lst([N("i")])), lst([bin_("+", bin_("*", N("i"), I(10)), bin_("+", N("i"), I(1)))])))), N("acc")]))),
+                       call("run", I(3)), bin_("+", bin_("+", N("s"), call("toa", N("x"))), call("toa", lst([e]))), probe]
+        al.append(mk(ids, items, {"ops": ["literal", "chain"], "element": en}))
     return [("operation histories over values that share structure", ss, ("value",)), ("a grown value extended twice", fk, ("value",)),
             ("a value captured by a closure that left its generator, across later loops of the same statement", cg, ("value",)),
-            ("values returned by read() while more input is read", rd, ("value",))]
+            ("values returned by read() while more input is read", rd, ("value",)),
+            ("array literals with computed elements as operands of a chain", al, ("value",))]
 
 
 def c10_nontrivial(v):
